@@ -171,8 +171,14 @@ func decodeCmd(args []string) error {
 					viaM, _ := sp.fromEnc(color.NRGBA{c8, ^c8, c8*31 + 7, 255})
 					viaM2, _ := sp.fromNRGB(color.NRGBA{c8 ^ 0x55, c8, ^c8, 255})
 					viaM3, _ := sp.fromRGBA(color.RGBA{0, c8 ^ 0xF0, c8, 255})
+					// ... and of colours in which two channels are equal and the third is not
+					w8 := ^c8
+					e1, _ := sp.fromEnc(color.NRGBA{w8, c8, c8, 255})
+					e2, _ := sp.fromEnc(color.NRGBA{c8, c8, w8, 255})
+					e3, _ := sp.fromEnc(color.RGBA{c8, w8, c8, 255})
 					entry = []int{bits(viaN.R), bits(viaN.G), bits(viaN.B), bits(viaR.R), bits(viaR.G), bits(viaR.B), bits(viaE.R), bits(viaE.G), bits(viaE.B),
-						bits(viaM.R), bits(viaM2.G), bits(viaM3.B)}
+						bits(viaM.R), bits(viaM2.G), bits(viaM3.B),
+						bits(e1.G), bits(e1.B), bits(e2.R), bits(e2.G), bits(e3.R), bits(e3.B)}
 				} else {
 					viaE, _ := sp.fromEnc(color.NRGBA64{uint16(c), uint16(c), uint16(c), 65535})
 					viaP, _ := sp.fromEnc(color.RGBA64{uint16(c), uint16(c), uint16(c), 65535})
@@ -192,8 +198,13 @@ func decodeCmd(args []string) error {
 					viaM, _ := sp.fromEnc(color.NRGBA64{c16, ^c16, c16*31 + 7, 65535})
 					viaM2, _ := sp.fromEnc(color.RGBA64{c16 ^ 0x5555, c16, ^c16, 65535})
 					viaM3, _ := sp.fromEnc(color.NRGBA64{c16<<8 | c16>>8, 0, c16, 65535})
+					w16 := ^c16
+					f1, _ := sp.fromEnc(color.NRGBA64{w16, c16, c16, 65535})
+					f2, _ := sp.fromEnc(color.RGBA64{c16, c16, w16, 65535})
+					f3, _ := sp.fromEnc(color.NRGBA64{c16, w16, c16, 65535})
 					entry = []int{bits(viaE.R), bits(viaE.G), bits(viaE.B), bits(viaP.R), bits(viaP.G), bits(viaP.B),
-						bits(viaM.R), bits(viaM2.G), bits(viaM3.B)}
+						bits(viaM.R), bits(viaM2.G), bits(viaM3.B),
+						bits(f1.G), bits(f1.B), bits(f2.R), bits(f2.G), bits(f3.R), bits(f3.B)}
 					if c%257 == 0 {
 						if sp.from8 != nil {
 							cross = bits(sp.from8(uint8(c / 257)))
